@@ -26,8 +26,8 @@ META = {
     ),
     "assumptions": ["paths are the interpreter's structural positions; branch contexts are located by (parent path, index from the SDK's branch name)"],
     "budget": {
-        "quick": {"shards": 4, "random_cases": 90, "min_nontrivial": 30},
-        "thorough": {"shards": 16, "random_cases": 2500, "min_nontrivial": 800},
+        "quick": {"shards": 4, "random_cases": 80, "shared_cases": 70, "min_nontrivial": 30},
+        "thorough": {"shards": 16, "random_cases": 2500, "shared_cases": 1500, "min_nontrivial": 800},
     },
 }
 
@@ -37,6 +37,7 @@ def cases(draw):
     prog = draw(G.programs(max_stmts=6, depth=3, features=("step", "wait", "child", "parallel", "map", "callback", "wfcb", "wfcond", "try")))
     return {
         "prog": prog,
+        "limits": draw(st.sampled_from([{}, {}, {}, {"checkpoint": 300}, {"checkpoint": 120}])),
         "backend": draw(G.backend_cfgs()),
         "plan": {"crashes": draw(G.crash_plans(max_crashes=1))},
         "sched": draw(G.schedules()),
@@ -90,4 +91,24 @@ def classes(run, case):
     return out
 
 
-install(globals(), props=("C08",), cases=cases, nontrivial=nontrivial, classes=classes, extra_monitors=(pair_monitor,))
+@st.composite
+def shared_context_cases(draw):
+    """Several user threads issue steps on ONE context: identifiers must still be distinct per operation."""
+    vals = G.tagged_values()
+    step = G.steps(vals, allow_fail=False, sems=("least",))
+    n = draw(st.integers(2, 3))
+    bodies = [draw(st.lists(step, min_size=1, max_size=3)) for _ in range(n)]
+    stmt = {"op": "threads", "bodies": bodies}
+    body = [stmt] if draw(st.booleans()) else [{"op": "child", "body": [stmt]}]
+    return {"prog": {"body": body}, "backend": {"response": "delta"}, "plan": {"crashes": []},
+            "sched": [draw(st.one_of(st.builds(lambda sd: {"mode": "walk", "seed": sd, "stick": 0.0}, st.integers(0, 2**31)),
+                                     st.builds(lambda sd, d: {"mode": "pct", "seed": sd, "depth": d, "horizon": 800}, st.integers(0, 2**31), st.integers(1, 3))))],
+            "line": ["threading"]}
+
+
+def _shared_stage(ctx):
+    WC.run_generated(ctx, shared_context_cases(), PROPS, n_cases=ctx.budget.get("shared_cases", 60), nontrivial=lambda r, c: ["shared", G.shape_of({"body": c["prog"]["body"]}) if False else len(r.backend.log), hash(tuple(r.invocations[0].get("trace", []))) & 0xFFFF],
+                     classes=lambda r, c: ["shared-context-threads"], seed_offset=31)
+
+
+install(globals(), props=("C08",), cases=cases, nontrivial=nontrivial, classes=classes, extra_monitors=(pair_monitor,), stages=(_shared_stage,))
